@@ -87,3 +87,37 @@ def describe(stage, clause): return (CLAUSES_LATE if stage == 'late' else CLAUSE
 def matches_known(k, case, verdict): return False
 TRUSTED = TRUSTED_BASE + ['the system order InputSystem < EnhancedInputSystem < sync point < dependants < Update is an assumption of Model/Frame.frame (partial); the trace comparison detects deviations']
 ASSUMES = ['"no time-dependent condition crosses a threshold" is read as "no condition changes its result"; quiet-frame clause judged on the polled states']
+
+
+def device_cases(tier, rng):
+    """contexts on any gamepad next to contexts tied to one gamepad (tied ones evaluated before and after, tied ones
+    leaving in mid-run): input on EVERY gamepad is reflected in the unrestricted context in the same frame"""
+    import C15
+    from fractions import Fraction as F
+    for c, tag in C15.cases(tier, rng):
+        if tag == 'gamepads':
+            yield (c, 'devices-' + tag)
+    from scen import Ids, sop, spawn, frame, raw, scenario, pad, pbutton, paxis, remove, insert
+    for _ in range(60 if tier == 'thorough' else 12):
+        ids = Ids()
+        pin = [pbutton(0), paxis(0)]
+        anyc, tied = rng.choice([(3, 0), (0, 3), (2, 4), (4, 2)])          # either one may have the higher priority
+        cfg = {(anyc, 0): C15.one_ctx(ids, pin, pad=None), (tied, 0): C15.one_ctx(ids, pin, pad=0, a_slot=1)}
+        menu = sorted([anyc, tied])
+        steps = [sop(spawn(0, [anyc])), frame(raw(pads=[pad(0), pad(1)]))]
+        L = rng.randint(6, 10); join = rng.randrange(1, 3); leave = rng.randrange(join + 1, L)
+        for i in range(L):
+            if i == join: steps.append(sop(insert(0, tied)))
+            if i == leave: steps.append(sop(remove(0, tied)))
+            hot = rng.randrange(2)
+            steps.append(frame(raw(pads=[pad(p, [0] if (p == hot and rng.random() < .7) else [], [(0, rng.choice([F(1, 2), F(-1)]) if (p == hot and rng.random() < .6) else F(0))]) for p in range(2)])))
+        yield (scenario(menu, [0], cfg, steps), 'devices-tied-context-comes-and-goes')
+
+STAGES.append(dict(name='devices', mode='app', coq='Check.C15c', profile=('Proofs.JudgeProfiles', 'JudgeProfiles.prof_C15', 'C15_app_judgement_sound_all (the stage is judged by Check.C15c)'),
+                   cases=device_cases, nontrivial=lambda case, out: 'VB true' in out or 'V1 ' in out, shard=6, exhaustive={'thorough': False, 'quick': False},
+                   rule='unrestricted and single-gamepad contexts side by side over 1-3 gamepads (the gamepad family of C15), and a context tied to gamepad 0 that joins and leaves next to an unrestricted one while the other gamepad is used: every probed read of a frame is the raw state of the device the context names in THAT frame'))
+_describe9 = describe
+def describe(stage, clause):
+    if stage == 'devices':
+        return {3: 'a gamepad binding did not reflect the input of its device in the same frame (an unrestricted context must see every gamepad, whatever ran before it)'}.get(clause, 'clause %d' % clause)
+    return _describe9(stage, clause)
